@@ -139,12 +139,15 @@ func (c *client) ReadSchema() (*schema.SchemaSchema, error) {
 	c.logger.Debugf("Reading plugin schema...")
 
 	if err := c.sendCBOR(nil); err != nil {
+		vh("c.hs.ret", "ok", false, "at", "send")
 		c.logger.Errorf("Failed to encode ATP start output message: %v", err)
 		return nil, fmt.Errorf("failed to encode start output message (%w)", err)
 	}
 
 	var hello HelloMessage
+	vh("c.hs.decode.pre")
 	if err := c.decoder.Decode(&hello); err != nil {
+		vh("c.hs.ret", "ok", false, "at", "decode")
 		c.logger.Errorf("Failed to decode ATP hello message: %v", err)
 		return nil, fmt.Errorf("failed to decode hello message (%w)", err)
 	}
@@ -153,6 +156,7 @@ func (c *client) ReadSchema() (*schema.SchemaSchema, error) {
 	err := c.validateVersion(hello.Version)
 
 	if err != nil {
+		vh("c.hs.ret", "ok", false, "at", "version", "ver", hello.Version)
 		err = fmt.Errorf("unsupported plugin version: %w", err)
 		c.logger.Errorf(err.Error())
 		return nil, err
@@ -161,9 +165,11 @@ func (c *client) ReadSchema() (*schema.SchemaSchema, error) {
 
 	unserializedSchema, err := schema.UnserializeSchema(hello.Schema)
 	if err != nil {
+		vh("c.hs.ret", "ok", false, "at", "schema", "ver", hello.Version)
 		c.logger.Errorf("Invalid schema received from plugin: %v", err)
 		return nil, fmt.Errorf("invalid schema (%w)", err)
 	}
+	vh("c.hs.ret", "ok", true, "ver", hello.Version)
 	c.logger.Debugf("Schema unserialization complete.")
 
 	return unserializedSchema, nil
@@ -200,7 +206,9 @@ func (c *client) Execute(
 		// ATP v1 carries no run IDs and has no read loop: the next work-done on the stream answers the last
 		// work-start. Calls are therefore made one at a time, from the work-start to its work-done; otherwise
 		// overlapping calls could receive each other's results.
+		vh("c.v1lock.pre", "run", stepData.RunID)
 		c.v1ExecuteMutex.Lock()
+		vh("c.v1lock", "run", stepData.RunID)
 		defer c.v1ExecuteMutex.Unlock()
 	}
 	if c.atpVersion > 1 {
